@@ -54,6 +54,15 @@ def updateWeatherFromDistribution (meanRows meanCols sdRows sdCols : Nat) (means
   else if means.any (fun m => decide (m < 0) || decide (m > 1)) then .error .invalid_argument
   else .ok ((List.range means.length).map fun k => normalWithFallback 0 1 zs[k]! us[k]!)
 
+/-- libstdc++'s `normal_distribution(mean, stddev)` returns `n * stddev + mean` for a standard
+    normal draw `n`; only this affine shape is modelled (the law of `n` is trusted). -/
+def normalDraw (mean sd n : Rat) : Rat := n * sd + mean
+
+/-- The normal draws of `update_weather_from_distribution`, one per cell, from the mean and
+    deviation rasters and the standard normal draws. -/
+def weatherZs (means sds ns : List Rat) : List Rat :=
+  (List.range means.length).map fun k => normalDraw means[k]! sds[k]! ns[k]!
+
 /-- `HostPool::apply_mortality_at(row, col)` without a pest-host table. -/
 def applyMortalityViaTable (table : Option (Rat × Int)) (c : Cell) : Except ErrKind Cell :=
   match table with
